@@ -35,6 +35,12 @@ Next == /\ l <= Len(Steps)
 Spec == Init /\ [][Next]_<<l, g>>
 C15a == Inv_C15a(g)
 C15b == Inv_C15b(g)
+\* after every step a signer restored from a copy of the store equals the running one (see ImplLifecycle)
+RestartEq(e) == /\ ~e.rs.failed
+                /\ e.rs.mark = e.post.mark
+                /\ \A d \in 1..K.maxd : \A f \in ChanFields : e.rs.chans[d][f] = e.post.chans[d][f]
+                /\ e.rs.pst = e.post.pst /\ e.rs.lis = e.post.lis
+C15r == l > 1 => LET e == Steps[l - 1] IN e.rc = 2 \/ e.post.dead \/ RestartEq(e)
 
 Idx == DOMAIN Steps
 Conforms(e) ==
